@@ -116,6 +116,14 @@ mod proofs {
                     assert!((o == core::cmp::Ordering::Less) == lt);
                     assert!((o == core::cmp::Ordering::Greater) == gt);
                     assert!((o == core::cmp::Ordering::Equal) == same(&a, &b));
+                    // the operators the derived field code uses (`<`, `>`, `==`, `!=` on the representation type)
+                    assert!(($R(a) < $R(b)) == lt); assert!(($R(a) > $R(b)) == gt);
+                }
+                #[kani::proof] #[kani::unwind(50)]
+                fn eq_operator() {
+                    // derived PartialEq on the limb array (a byte-wise comparison after codegen: bounded by 8 bytes per limb)
+                    let a: [u64; $N] = kani::any(); let b: [u64; $N] = kani::any();
+                    assert!(($R(a) == $R(b)) == same(&a, &b)); assert!(($R(a) != $R(b)) == !same(&a, &b));
                 }
                 #[kani::proof] #[kani::unwind(8)]
                 fn shifts() {
